@@ -1,6 +1,8 @@
 import IstioModel.Common.Wire
 import IstioModel.C07.Host
 import IstioModel.C07.Vis
+import IstioModel.C07.Scope
+import IstioModel.C07.DR
 
 /-! Line-protocol driver for C07 (streams `host`, `vis`, `scope`). See harness/c07. -/
 namespace IstioModel.C07
@@ -45,15 +47,73 @@ structure DState where
   unified : Bool := true
   pickBest : Bool := true
   enhanced : Bool := true
+  visGuard : Bool := true     -- F=0 replays the behaviour before the `fix:` commit
   mesh : Mesh := {}
   raw : List Svc := []        -- as declared
   built : Bool := false
   svcs : List Svc := []       -- creation-ordered (after `build`)
+  vssRaw : List VS := []
+  vss : List VS := []         -- creation-ordered (after `build`)
+  drs : List DR := []
+  drIdx : DRIndex := {}
+  scs : List Sidecar := []
+  defaultNs : List String := []   -- namespaces whose default sidecar scope is cached (sidecarIndex.defaultSidecarsByNamespace)
 
 def hostLine (n m : String) : String :=
   " ".intercalate [boolTok (isWild n), boolTok (isWild m),
     boolTok (hostMatches n m), boolTok (hostMatches m n),
     boolTok (subsetOf n m), boolTok (subsetOf m n)]
+
+def decDests (t : String) : List Dest :=
+  if t == "-" then [] else (t.splitOn "|").map fun it =>
+    let (a, b) := cut it "!"
+    { host := dec a, port := b.toNat! }
+
+def decHTTP (t : String) : List HttpRoute :=
+  if t == "-" then [] else (t.splitOn ";").map fun it =>
+    let (a, b) := cut it "^"
+    { srcNs := decItems a "|", dests := decDests b }
+
+def decEgress (t : String) : List Listener :=
+  if t == "-" then [] else (t.splitOn ";").map fun it =>
+    let (a, b) := cut it "^"
+    let (p, pr) := cut a "|"
+    { port := p.toNat!, httpProxy := dec pr == "HTTP_PROXY", hosts := decItems b "|" }
+
+def decLabels (t : String) : Option (List (String × String)) :=
+  if t == "nil" then none
+  else if t == "-" then some []
+  else some ((t.splitOn "|").map fun it => let (a, b) := cut it "="; (dec a, dec b))
+
+def plus (l : List String) : String := if l.isEmpty then "-" else "+".intercalate l
+
+def showSvc (s : Svc) : String :=
+  "|".intercalate [enc s.id, enc s.hostname, enc s.ns, plus (s.ports.map fun p => toString p.num),
+    plus (s.aliases.map fun a => enc (a.1 ++ "/" ++ a.2))]
+
+def showSvcs (l : List Svc) (sorted : Bool) : String :=
+  let l := if sorted then l.mergeSort (fun a b => !(b.hostname < a.hostname)) else l
+  if l.isEmpty then "-" else ",".intercalate (l.map showSvc)
+
+def showVSs (l : List VS) : String :=
+  if l.isEmpty then "-" else ",".intercalate (l.map fun v => enc (v.ns ++ "/" ++ v.name))
+
+def showDRs (l : List (String × List CDR)) : String :=
+  if l.isEmpty then "-" else
+  let l := l.mergeSort (fun a b => !(b.1 < a.1))
+  ",".intercalate (l.map fun (h, cs) =>
+    enc h ++ ">" ++ "&".intercalate (cs.map fun c => "+".intercalate (c.frm.map fun f => enc (f.1 ++ "/" ++ f.2))))
+
+def DState.flags (d : DState) : Flags :=
+  { unified := d.unified, pickBest := d.pickBest, enhanced := d.enhanced, visGuard := d.visGuard }
+
+def showScope (d : DState) (name : String) (ls : List ILW) (services : List Svc) (cfgNs : String) : String :=
+  let lst := ls.map fun l => showSvcs l.services false ++ "/" ++ showVSs l.vss
+  " ".intercalate [
+    "scope=" ++ enc name,
+    "S=" ++ showSvcs services true,
+    "L=" ++ ";".intercalate lst,
+    "D=" ++ showDRs (selectDestinationRules d.mesh d.drIdx cfgNs services)]
 
 def decVis : String → SEVis
   | "n" => .ns | "x" => .none | _ => .pub
@@ -69,12 +129,32 @@ def query (d : DState) (toks : List String) : String :=
     let items := (byNamespace d.svcs (dec h)).map fun (ns, s) => enc ns ++ "=" ++ enc s.id
     let items := items.mergeSort (fun a b => !(b < a))
     if items.isEmpty then "-" else ",".intercalate items
+  | ["scope", ns, lbl] =>
+    let cfgNs := dec ns
+    let labels := (decLabels lbl).getD []
+    let sc := pickSidecar d.mesh d.scs cfgNs labels
+    let name := match sc with
+      | some c => cfgNs ++ "/" ++ c.name
+      | none => cfgNs ++ "/default-sidecar"
+    let ls := scopeListeners d.flags d.mesh d.svcs d.vss sc cfgNs
+    showScope d name ls (collectImportedServices d.flags d.mesh d.svcs cfgNs ls) cfgNs
+  | ["gw", ns] =>
+    let cfgNs := dec ns
+    -- "Gateways always use default sidecar scope": a default scope cached by an earlier sidecar proxy wins
+    if d.defaultNs.contains cfgNs then
+      let ls := scopeListeners d.flags d.mesh d.svcs d.vss none cfgNs
+      showScope d (cfgNs ++ "/default-sidecar") ls (collectImportedServices d.flags d.mesh d.svcs cfgNs ls) cfgNs
+    else
+    let vs := gatewayVirtualServices d.mesh d.vss cfgNs
+    let services := gatewayScopeServices d.mesh d.svcs cfgNs
+    showScope d (cfgNs ++ "/default-sidecar") [{ matchPort := none, hosts := [], services := [], vss := vs }] services cfgNs
   | _ => "bad-op"
 
 def stepD (d : DState) (toks : List String) : DState × String :=
   match toks with
   | "case" :: rest =>
-    ({ unified := flagOf rest "U" true, pickBest := flagOf rest "P" true, enhanced := flagOf rest "E" true }, "ok")
+    ({ unified := flagOf rest "U" true, pickBest := flagOf rest "P" true, enhanced := flagOf rest "E" true,
+       visGuard := flagOf rest "F" true }, "ok")
   | ["h", n, m] => (d, hostLine (dec n) (dec m))
   | ["mesh", root, ds, dv, dd, ap] =>
     ({ d with mesh := { rootNs := dec root, defSvc := decOptList ds, defVS := decOptList dv,
@@ -84,7 +164,27 @@ def stepD (d : DState) (toks : List String) : DState × String :=
                      ctime := ct.toNat!, ports := decPorts ports, exportTo := decItems ex ",",
                      vis := decVis vis, resolution := res.toNat!, attr := dec attr, aliases := decAliases al }
     ({ d with raw := d.raw ++ [s] }, "ok")
-  | ["build"] => ({ d with built := true, svcs := sortServices d.raw }, "ok")
+  | ["vs", name, ns, ct, hosts, ex, gws, gwsem, http, tcp] =>
+    let v : VS := { name := dec name, ns := dec ns, ctime := ct.toNat!, hosts := decItems hosts ",",
+                    exportTo := decItems ex ",", gateways := decItems gws ",", gwSem := tokBool gwsem,
+                    http := decHTTP http, tcp := decDests tcp }
+    ({ d with vssRaw := d.vssRaw ++ [v] }, "ok")
+  | ["dr", name, ns, ct, h, ex, sel] =>
+    let r : DR := { name := dec name, ns := dec ns, ctime := ct.toNat!, host := dec h,
+                    exportTo := decItems ex ",", selector := tokBool sel }
+    ({ d with drs := d.drs ++ [r] }, "ok")
+  | ["sc", name, ns, ct, sel, egress] =>
+    let c : Sidecar := { name := dec name, ns := dec ns, ctime := ct.toNat!, selector := decLabels sel,
+                         egress := decEgress egress }
+    ({ d with scs := d.scs ++ [c] }, "ok")
+  | ["build"] =>
+    ({ d with built := true, defaultNs := [], svcs := sortServices d.raw, vss := sortVS d.vssRaw,
+              drIdx := setDestinationRules d.enhanced d.mesh d.drs }, "ok")
+  | ["scope", ns, lbl] =>
+    if !d.built then (d, "not-built") else
+    let cfgNs := dec ns
+    let cached := (pickSidecar d.mesh d.scs cfgNs ((decLabels lbl).getD [])).isNone
+    ({ d with defaultNs := if cached then cfgNs :: d.defaultNs else d.defaultNs }, query d toks)
   | _ => if d.built then (d, query d toks) else (d, "not-built")
 
 end IstioModel.C07
